@@ -342,6 +342,30 @@ def judge(case):
                                                   f'{head + inner_text + tail!r}')
             if str(inner) != inner_text:
                 bad('rendering-a-block-changes-the-contents-object', f'{what} {case["form"]}')
+        elif kind == 'fill-later':
+            # EMBEDDING: the natural order of use - the (still empty) contents block is handed to the owner first, because the
+            # members need the owner as their scope, and is FILLED afterwards through the caller's own reference; what the owner
+            # renders must be what a block built from the final contents renders
+            from dznpy.scoping import NamespaceIds  # pylint: disable=import-outside-toplevel
+            from dznpy.text_gen import TextBlock  # pylint: disable=import-outside-toplevel
+            empty = {'none-arg': lambda: TextBlock(), 'empty-list': lambda: TextBlock([]), 'none': lambda: TextBlock(None),
+                     'one-line': lambda: TextBlock(['int first;'])}[case['start']]
+            mk = {'struct': lambda c: G.Struct('S', c), 'class': lambda c: G.Class('S', c),
+                  'namespace': lambda c: G.Namespace(NamespaceIds(['N']), c)}[case['what']]
+            mine = empty()
+            owner = mk(mine)
+            before = list(mine.lines)
+            for step in case['steps']:
+                if step == 'iadd':
+                    mine += ['int a;', '', 'int b;']
+                elif step == 'append':
+                    mine.append('void f();')
+                else:
+                    mine.lines.append('int raw;')
+            want = str(mk(TextBlock(list(mine.lines))))
+            if str(owner) != want:
+                bad('contents-filled-after-construction', f'{case}: contents object started as {before!r}, now holds '
+                                                          f'{mine.lines!r}; the owner renders {str(owner)!r}, expected {want!r}')
         elif kind == 'section':
             from dznpy.text_gen import TextBlock  # pylint: disable=import-outside-toplevel
             spec = G.AccessSpecifier[case['spec']]
@@ -633,6 +657,9 @@ def other_cases():
     for what, form, later in itertools.product(('struct', 'class', 'namespace'),
                                                ('plain', 'comment', 'header', 'indented', 'nested-header', 'section'), (False, True)):
         yield {'kind': 'block-contents', 'what': what, 'form': form, 'later': later}
+    for what, start in itertools.product(('struct', 'class', 'namespace'), ('none-arg', 'empty-list', 'none', 'one-line')):
+        for steps in (['iadd'], ['append'], ['lines-append'], ['iadd', 'append'], ['append', 'lines-append', 'iadd']):
+            yield {'kind': 'fill-later', 'what': what, 'start': start, 'steps': steps}
     for what, culprit, shape, attempts in itertools.product(('struct', 'class', 'namespace', 'function', 'constructor', 'section'),
                                                         ('param', 'function', 'poison'), ('flat', 'nested', 'dict', 'first'), (1, 2)):
         yield {'kind': 'failed-render', 'what': what, 'culprit': culprit, 'shape': shape, 'attempts': attempts}
